@@ -21,13 +21,13 @@ Proof. exact (fun t => l003_fix_idempotent_mx space 1 t (le_n 1)). Qed.
 Theorem C17_l010_fix_idempotent : forall t, l010_fix (l010_fix t) = l010_fix t.
 Proof. exact l010_fix_idempotent. Qed.
 Theorem C17_l007_fix_idempotent : forall t, i_l007_fix (i_l007_fix t) = i_l007_fix t.
-Proof. exact (l007_fix_idempotent_gen letter digit upper keywords_tab up_letter up_noquote up_idem nl45 nd45). Qed.
+Proof. exact (l007_fix_idempotent_gen letter digit upper keywords_tab up_letter up_noquote up_idem nl45 nd45 up_nobt). Qed.
 
 (* the CLI's --auto-fix loop (L001, L002, L003, L010, L007 in sequence) and the language server's format action *)
 Theorem C17_cli_fix_idempotent : forall t, i_cli_fix (i_cli_fix t) = i_cli_fix t.
 Proof.
   exact (cli_fix_idempotent letter digit space upper keywords_tab up_letter up_noquote up_idem up_nows up_keynoquote nl45 nd45 up_key45
-           (proj1 space_32_9) (proj1 (proj2 space_32_9)) (proj2 (proj2 space_32_9))).
+           (proj1 space_32_9) (proj1 (proj2 space_32_9)) (proj2 (proj2 space_32_9)) up_nobt up_keynobt).
 Qed.
 Theorem C17_format_idempotent : forall tab spaces final t,
   i_format tab spaces final (i_format tab spaces final t) = i_format tab spaces final t.
@@ -65,7 +65,7 @@ Theorem C17_l003_fix_clears : forall t, i_l003_check (i_l003_fix t) = [].
 Proof. exact (fun t => l003_fix_clears_mx space 1 t (le_n 1)). Qed.
 
 Theorem C17_l007_fix_clears : forall t, i_l007_check (i_l007_fix t) = [].
-Proof. exact (l007_fix_clears letter digit upper keywords_tab up_letter up_noquote up_idem nl45 nd45). Qed.
+Proof. exact (l007_fix_clears letter digit upper keywords_tab up_letter up_noquote up_idem nl45 nd45 up_nobt). Qed.
 Theorem C17_l010_fix_clears : forall t, wft t -> l010_check (l010_fix t) = [].
 Proof. exact l010_fix_clears. Qed.
 
@@ -184,15 +184,15 @@ Proof. refute ([39; 97; 10; 10; 10; 98; 39]%N). Qed.
 (* repeated spaces on the second line of a string literal are collapsed *)
 Theorem C17_l010_string_tokens_refuted : exists t, lex_reading (l010_fix t) <> lex_reading t.
 Proof. refute ([39; 97; 10; 98; 32; 32; 99; 39]%N). Qed.
-(* repeated spaces inside a back-quoted identifier are collapsed *)
+(* repeated spaces on the second line of a back-quoted identifier are collapsed *)
 Theorem C17_l010_backtick_tokens_refuted : exists t, lex_reading (l010_fix t) <> lex_reading t.
-Proof. refute ([96; 97; 32; 32; 98; 96]%N). Qed.
+Proof. refute ([96; 97; 10; 98; 32; 32; 99; 96]%N). Qed.
 (* a keyword on the second line of a string literal is upper-cased *)
 Theorem C17_l007_string_tokens_refuted : exists t, lex_reading (i_l007_fix t) <> lex_reading t.
 Proof. refute ([39; 97; 10; 115; 101; 108; 101; 99; 116; 39]%N). Qed.
-(* a back-quoted identifier spelled like a keyword is upper-cased *)
+(* a keyword on the second line of a back-quoted identifier is upper-cased *)
 Theorem C17_l007_backtick_tokens_refuted : exists t, lex_reading (i_l007_fix t) <> lex_reading t.
-Proof. refute ([96; 115; 101; 108; 101; 99; 116; 96]%N). Qed.
+Proof. refute ([96; 97; 10; 115; 101; 108; 101; 99; 116; 96]%N). Qed.
 (* repeated spaces inside a block comment are collapsed *)
 Theorem C17_l010_block_comment_tokens_refuted : exists t, lex_reading (l010_fix t) <> lex_reading t.
 Proof. refute ([120; 32; 47; 42; 32; 97; 32; 32; 98; 32; 42; 47]%N). Qed.
